@@ -451,7 +451,9 @@ pub fn gen_decl32_sample(ctx: &Ctx, args: &[String]) -> i32 {
     let _ = std::fs::create_dir_all(&dir);
     let mut rng = crate::rng::Rng::derive(ctx.seed, "decl32", 0);
     let mut n = 0;
-    let dims: [(u16, u16); 7] = [(32_768, 32_768), (65_535, 65_535), (16_384, 65_535), (46_341, 46_341), (65_535, 32_769), (23_171, 23_171), (1, 65_535)];
+    // quick: three shapes per (format, kind) - Miri needs ~0.6 s per load; thorough: seven
+    let all: [(u16, u16); 7] = [(32_768, 32_768), (65_535, 65_535), (46_341, 46_341), (16_384, 65_535), (65_535, 32_769), (23_171, 23_171), (1, 65_535)];
+    let dims = &all[..if ctx.tier == Tier::Thorough { 7 } else { 3 }];
     for fmt in [Fmt::Rgba, Fmt::Gray, Fmt::Indexed] {
         for (k, (w, h)) in dims.iter().enumerate() {
             for kind in 0..4 {
@@ -495,11 +497,14 @@ pub fn gen_decl32_sample(ctx: &Ctx, args: &[String]) -> i32 {
             }
         }
     }
-    for b in 0..6u64 {
+    // (Miri interprets: a few small accepted files are enough to see that the pass does load)
+    let mut wf = 0;
+    for b in 0..40u64 {
         let base = crate::hostile::generated_base(ctx.seed, b);
-        if base.bytes.len() <= 4096 {
+        if base.bytes.len() <= 1000 && wf < 2 {
             let _ = std::fs::write(dir.join(format!("wellformed-gen{}.ase", b)), &base.bytes);
             n += 1;
+            wf += 1;
         }
     }
     println!("wrote {} inputs for the 32-bit pass to {}", n, dir.display());
